@@ -47,7 +47,11 @@ func (t *tailBuf) Write(p []byte) (int, error) {
 func (t *tailBuf) String() string { t.mu.Lock(); defer t.mu.Unlock(); return string(t.b) }
 
 func startWorker(name string) (*isoWorker, error) {
-	cmd := exec.Command(os.Args[0], "worker", name)
+	bin := os.Args[0]
+	if b := os.Getenv("DRIVE_WORKER_BIN_" + name); b != "" {
+		bin = b // e.g. a -race build for the workers that look for data races
+	}
+	cmd := exec.Command(bin, "worker", name)
 	in, _ := cmd.StdinPipe()
 	out, _ := cmd.StdoutPipe()
 	tb := &tailBuf{}
